@@ -150,8 +150,8 @@ func runC07(c *Ctx) {
 	R := c.R
 	R.Rule("sentinel-guard", "a result of a function that can return -1 reaches an index, a slice bound or an index parameter only after a comparison that excludes -1", 3)
 	R.Rule("encapsulation", "Sorted.slice is written only via Insert (Add) and Remove (Remove, RemoveAt); never returned, sub-sliced out, or passed to another callee that could keep or write it", 3)
-	R.Rule("input-copied", "NewSorted's slice is make+copy on every path; the argument is never written or sorted", 1)
-	R.Rule("sorted-on-entry", "NewSorted sorts the fresh copy with a less(s[i], s[j]) adapter", 1)
+	R.Rule("input-copied", "every constructor of Sorted builds its slice with make+copy on every path (or hands its argument to one that does); the argument is never written or sorted", 2)
+	R.Rule("sorted-on-entry", "every constructor of Sorted sorts the fresh copy with a less(s[i], s[j]) adapter over the less function it keeps", 2)
 	R.Rule("insert-at-search", "Add inserts at search(value) and returns that same position", 1)
 	R.Rule("lower-bound", "search = sort.Search(len(slice), !less(slice[i], value))", 1)
 	R.Rule("index-validates", "Index returns a position only after slice[i] == value with 0 <= i < Len", 1)
@@ -352,107 +352,20 @@ func runC07(c *Ctx) {
 		}
 	}
 
-	// ---- NewSorted
-	if fi := c.fn("input-copied", "slices.NewSorted"); fi != nil {
-		if ps := c.paths("input-copied", fi); ps != nil {
-			values := paramOf(fi, 0)
-			ok, why := true, ""
-			okS, whyS := true, ""
-			for _, p := range ps {
-				if p.End != EndReturn || len(p.Rets) != 1 || p.Rets[0].Op != "struct" {
-					ok, why = false, "a path does not return a Sorted literal"
-					continue
-				}
-				st := p.Rets[0]
-				stt := st.Typ.Underlying().(*types.Struct)
-				var sv *Term
-				for i := 0; i < stt.NumFields(); i++ {
-					if sameField(stt.Field(i), sliceF) {
-						sv = st.Args[i]
-					}
-				}
-				copied := false
-				// append(make(S, 0, n), values...) is a fresh copy as well
-				if sv != nil && sv.Op == "builtin" && sv.Sym == "append" && len(sv.Args) == 2 && sv.Args[0].Op == "mkslice" && sv.Args[0].Args[0].IsConst("0") && sv.Args[1].Key() == values.Key() {
-					copied = true
-				} else if sv == nil || sv.Op != "mkslice" {
-					ok, why = false, fmt.Sprintf("on a path the Sorted keeps %s, not a fresh copy of the input (%s)", sv, p.CondString())
-					continue
-				} else if !isLenOf(sv.Args[0], values) {
-					ok, why = false, "the fresh slice does not have the input's length"
-				}
-				var sortCall *Event
-				for i := range p.Events {
-					e := &p.Events[i]
-					if e.Kind == "call" && e.Name == "builtin.copy" && e.Args[0].Key() == sv.Key() && e.Args[1].Key() == values.Key() {
-						copied = true
-					}
-					if e.Kind == "call" && strings.HasPrefix(e.Name, "sort.") {
-						sortCall = e
-					}
-					// the argument must not be written / sorted
-					if e.Kind == "store" && rootOf(e.Addr).Key() == values.Key() {
-						ok, why = false, "writes the caller's slice"
-					}
-					if e.Kind == "call" && e.Name != "builtin.copy" && e.Name != "builtin.len" && e.Name != "builtin.append" {
-						for _, a := range e.Args {
-							if a != nil && stripIface(a).Key() == values.Key() {
-								ok, why = false, "passes the caller's slice to "+e.Name+" (reorders or keeps it)"
-							}
-						}
-					}
-					if e.Kind == "call" && e.Name == "builtin.copy" && e.Args[0].Key() == values.Key() {
-						ok, why = false, "copies INTO the caller's slice"
-					}
-				}
-				if !copied {
-					ok, why = false, "the input is not copied into the fresh slice"
-				}
-				// sorted-on-entry
-				if sortCall == nil {
-					okS, whyS = false, "the copy is not sorted"
-					continue
-				}
-				switch sortCall.Name {
-				case "sort.SliceStable", "sort.Slice":
-					if stripIface(sortCall.Args[0]).Key() != sv.Key() {
-						okS, whyS = false, "sorts something other than the fresh copy"
-						break
-					}
-					var mk *Event
-					for i := range p.Events {
-						if p.Events[i].Kind == "mkclosure" && p.Events[i].Val.Key() == sortCall.Args[1].Key() {
-							mk = &p.Events[i]
-						}
-					}
-					if mk == nil {
-						okS, whyS = false, "the less adapter is not a local closure"
-						break
-					}
-					cp := c.An.ClosurePaths(mk)
-					lessP := paramOf(fi, 1)
-					good := cp.Unproven == "" && len(cp.Paths) == 1 && len(cp.Paths[0].Rets) == 1
-					if good {
-						r := cp.Paths[0].Rets[0]
-						iT := &Term{Op: "param", N: 0, Fn: mk.SSAFn}
-						jT := &Term{Op: "param", N: 1, Fn: mk.SSAFn}
-						good = r.Op == "call" && r.Sym == "dyn" && len(r.Args) == 3 && r.Args[0].Key() == lessP.Key() &&
-							isElemOf(r.Args[1], sv, iT) && isElemOf(r.Args[2], sv, jT)
-					}
-					if !good {
-						okS, whyS = false, "the adapter is not less(slice[i], slice[j]) on the fresh copy"
-					}
-				default:
-					okS, whyS = false, "sorted through "+sortCall.Name+", which these rules do not know"
-				}
-			}
-			o := R.Decide(ok, "input-copied", fi.Name, "copy", c.pos(fi), "make(len(values)) + copy(values) on every path; the argument is only read", why)
-			if !ok {
-				o.Breaks = "the Sorted aliases the caller's slice: either side's later writes corrupt the other"
-			}
-			R.Decide(okS, "sorted-on-entry", fi.Name, "sort", c.pos(fi), "stable sort of the fresh copy with less(s[i], s[j])", whyS)
+	// ---- constructors: every function of the package that returns a Sorted
+	nctor := 0
+	for _, fi := range c.P.FuncsOfPkg("slices") {
+		sig := fi.Obj.Type().(*types.Signature)
+		if sig.Results().Len() != 1 || sig.Recv() != nil {
+			continue
 		}
+		if nt, ok := sig.Results().At(0).Type().(*types.Named); !ok || nt.Origin().Obj().Name() != "Sorted" {
+			continue
+		}
+		nctor++
+		c7Ctor(c, fi, sliceF)
 	}
+	c.R.Analysed["constructors of Sorted"] = nctor
 	// ---- search: lower bound
 	searchFi := c.fn("lower-bound", "slices.(*Sorted).search")
 	if searchFi != nil {
@@ -724,4 +637,146 @@ func runC07(c *Ctx) {
 			R.Decide(ok, "position", fi.Name, "agrees", c.pos(fi), "Index(value) != -1", "Contains is not Index(value) != -1")
 		}
 	}
+}
+
+// c7Ctor decides input-copied and sorted-on-entry for one function that returns a Sorted: it either builds the
+// value itself (fresh copy of its slice parameter, sorted with the less function that it stores), or hands its
+// slice parameter to another constructor of the package, which is decided the same way.
+func c7Ctor(c *Ctx, fi *FuncInfo, sliceF *types.Var) {
+	R := c.R
+	{
+		if ps := c.paths("input-copied", fi); ps != nil {
+			values := paramOf(fi, 0)
+			ok, why := true, ""
+			okS, whyS := true, ""
+			for _, p := range ps {
+				if p.End == EndReturn && len(p.Rets) == 1 && p.Rets[0].Op == "call" && p.Rets[0].Sym != fi.Name && isSortedCtorName(c, p.Rets[0].Sym) &&
+					len(p.Rets[0].Args) > 0 && stripIface(p.Rets[0].Args[0]).Key() == values.Key() {
+					// delegation: the other constructor is decided by the same rules; here the slice may only be handed over
+					for i := range p.Events {
+						e := &p.Events[i]
+						if e.Kind == "store" && rootOf(e.Addr).Key() == values.Key() {
+							ok, why = false, "writes the caller's slice"
+						}
+						if (e.Kind == "call" || e.Kind == "go" || e.Kind == "defer") && (e.Res == nil || e.Res.Key() != p.Rets[0].Key()) && e.Name != "builtin.len" {
+							for _, a := range e.Args {
+								if a != nil && stripIface(a).Key() == values.Key() {
+									ok, why = false, "passes the caller's slice to "+e.Name+" (reorders or keeps it)"
+								}
+							}
+						}
+					}
+					continue
+				}
+				if p.End != EndReturn || len(p.Rets) != 1 || p.Rets[0].Op != "struct" {
+					ok, why = false, "a path does not return a Sorted literal"
+					okS, whyS = false, "a path does not return a Sorted literal"
+					continue
+				}
+				st := p.Rets[0]
+				stt := st.Typ.Underlying().(*types.Struct)
+				var sv, lessP *Term
+				for i := 0; i < stt.NumFields(); i++ {
+					if sameField(stt.Field(i), sliceF) {
+						sv = st.Args[i]
+					} else {
+						lessP = st.Args[i]
+					}
+				}
+				copied := false
+				// append(make(S, 0, n), values...) is a fresh copy as well
+				if sv != nil && sv.Op == "builtin" && sv.Sym == "append" && len(sv.Args) == 2 && sv.Args[0].Op == "mkslice" && sv.Args[0].Args[0].IsConst("0") && sv.Args[1].Key() == values.Key() {
+					copied = true
+				} else if sv == nil || sv.Op != "mkslice" {
+					ok, why = false, fmt.Sprintf("on a path the Sorted keeps %s, not a fresh copy of the input (%s)", sv, p.CondString())
+					continue
+				} else if !isLenOf(sv.Args[0], values) {
+					ok, why = false, "the fresh slice does not have the input's length"
+				}
+				var sortCall *Event
+				for i := range p.Events {
+					e := &p.Events[i]
+					if e.Kind == "call" && e.Name == "builtin.copy" && e.Args[0].Key() == sv.Key() && e.Args[1].Key() == values.Key() {
+						copied = true
+					}
+					if e.Kind == "call" && strings.HasPrefix(e.Name, "sort.") {
+						sortCall = e
+					}
+					// the argument must not be written / sorted
+					if e.Kind == "store" && rootOf(e.Addr).Key() == values.Key() {
+						ok, why = false, "writes the caller's slice"
+					}
+					if e.Kind == "call" && e.Name != "builtin.copy" && e.Name != "builtin.len" && e.Name != "builtin.append" {
+						for _, a := range e.Args {
+							if a != nil && stripIface(a).Key() == values.Key() {
+								ok, why = false, "passes the caller's slice to "+e.Name+" (reorders or keeps it)"
+							}
+						}
+					}
+					if e.Kind == "call" && e.Name == "builtin.copy" && e.Args[0].Key() == values.Key() {
+						ok, why = false, "copies INTO the caller's slice"
+					}
+				}
+				if !copied {
+					ok, why = false, "the input is not copied into the fresh slice"
+				}
+				// sorted-on-entry
+				if sortCall == nil {
+					okS, whyS = false, "the copy is not sorted"
+					continue
+				}
+				switch sortCall.Name {
+				case "sort.SliceStable", "sort.Slice":
+					if stripIface(sortCall.Args[0]).Key() != sv.Key() {
+						okS, whyS = false, "sorts something other than the fresh copy"
+						break
+					}
+					var mk *Event
+					for i := range p.Events {
+						if p.Events[i].Kind == "mkclosure" && p.Events[i].Val.Key() == sortCall.Args[1].Key() {
+							mk = &p.Events[i]
+						}
+					}
+					if mk == nil {
+						okS, whyS = false, "the less adapter is not a local closure"
+						break
+					}
+					cp := c.An.ClosurePaths(mk)
+					good := cp.Unproven == "" && len(cp.Paths) == 1 && len(cp.Paths[0].Rets) == 1
+					if good {
+						r := cp.Paths[0].Rets[0]
+						iT := &Term{Op: "param", N: 0, Fn: mk.SSAFn}
+						jT := &Term{Op: "param", N: 1, Fn: mk.SSAFn}
+						good = lessP != nil && r.Op == "call" && r.Sym == "dyn" && len(r.Args) == 3 && r.Args[0].Key() == lessP.Key() &&
+							isElemOf(r.Args[1], sv, iT) && isElemOf(r.Args[2], sv, jT)
+					}
+					if !good {
+						okS, whyS = false, "the adapter is not less(slice[i], slice[j]) on the fresh copy, with the less function that the Sorted keeps"
+					}
+				default:
+					okS, whyS = false, "sorted through "+sortCall.Name+", which these rules do not know"
+				}
+			}
+			o := R.Decide(ok, "input-copied", fi.Name, "copy", c.pos(fi), "make(len(values)) + copy(values) on every path; the argument is only read", why)
+			if !ok {
+				o.Breaks = "the Sorted aliases the caller's slice: either side's later writes corrupt the other"
+			}
+			R.Decide(okS, "sorted-on-entry", fi.Name, "sort", c.pos(fi), "stable sort of the fresh copy with less(s[i], s[j]) (or delegation to a constructor that does)", whyS)
+		}
+	}
+}
+
+func isSortedCtorName(c *Ctx, name string) bool {
+	for _, fi := range c.P.FuncsOfPkg("slices") {
+		if fi.Name != name {
+			continue
+		}
+		sig := fi.Obj.Type().(*types.Signature)
+		if sig.Results().Len() != 1 || sig.Recv() != nil {
+			return false
+		}
+		nt, ok := sig.Results().At(0).Type().(*types.Named)
+		return ok && nt.Origin().Obj().Name() == "Sorted"
+	}
+	return false
 }
